@@ -38,6 +38,43 @@ def leaves(v):
     return {v}
 
 
+def dead_opposite_leaves(v, wantv, opp, sign):
+    """True when every occurrence of the opposite limit among the alternatives of a two-sided saturation helper sits under a test that
+    cannot hold: with the cell inside the 32-bit range and num_els >= 1 (the property's domain), cell + num_els is above -2^31 and
+    cell - num_els is below 2^31 - 1, so `cell + num_els <= -2^31` / `cell - num_els >= 2^31 - 1` select nothing"""
+    flip = {">": "<=", ">=": "<", "<": ">=", "<=": ">", "==": "!=", "!=": "=="}
+    swap = {">": "<", "<": ">", ">=": "<=", "<=": ">=", "==": "==", "!=": "!="}
+    impossible = ("<", "<=", "==") if sign == "+" else (">", ">=", "==")
+    state = {"seen": False, "ok": True}
+
+    def holds_never(c, pol):
+        if c[0] != "cmp" or c[1] not in flip:
+            return False
+        op, a, b = c[1], c[2], c[3]
+        if a == opp and b == wantv:
+            op, a, b = swap[op], b, a
+        if a != wantv or b != opp:
+            return False
+        if not pol:
+            op = flip[op]
+        return op in impossible
+
+    def go(x, guards):
+        if x[0] == "phi":
+            go(x[2], guards + ((x[1], True),))
+            go(x[3], guards + ((x[1], False),))
+        elif x[0] == "call" and x[1] in (("g", "min"), ("g", "max")) and len(x[2]) == 2 and not x[3]:
+            go(x[2][0], guards)
+            go(x[2][1], guards)
+        elif x == opp:
+            state["seen"] = True
+            if not any(holds_never(c, pol) for c, pol in guards):
+                state["ok"] = False
+
+    go(v, ())
+    return state["seen"] and state["ok"]
+
+
 def cell_accesses(ps):
     out = []
     for p in ps:
@@ -181,7 +218,9 @@ def check(prog, rep, tier):
                         if x == canon(("bin", sign, ("sub", BINS, addr, 0), capped)):
                             return True
                 return False
-            odd = [x for x in leaves(stored) if x not in (wantv, lim) and not capped_amount(x)]
+            opp = C(-2**31) if sign == "+" else C(2**31 - 1)
+            dead = dead_opposite_leaves(stored, wantv, opp, sign)
+            odd = [x for x in leaves(stored) if x not in (wantv, lim) and not capped_amount(x) and not (x == opp and dead)]
             if odd:
                 rep.bad("C02.one-store-per-row", f"{CTX}.{n}", f"store {nshow(odd[0])}",
                         f"the cell receives {nshow(odd[0])}; expected cell {sign} num_els or the clamp constant", e.where())
